@@ -19,7 +19,7 @@ func init() {
 		profile: func(r *Rng, cfg Config) *Profile {
 			p := sizeAdversarialProfile(r, cfg)
 			p.Name = "iter"
-			p.Owners = []uint64{1, 2}[:r.Range(1, 2)]
+			p.Owners = [][]uint64{{1}, {1, 2}, {1, 0}, {0, 2}}[r.Intn(4)] // 0 = the temporary owner (never persisted, enumerable like any other)
 			p.KeepProb = 0
 			p.W["iter"] = 30
 			p.W["iter.mut"] = 8
